@@ -70,13 +70,14 @@ def subjRefsAreJoinCols (r parent : Rule) : Bool :=
      && ((refsOfRule parent true).all ((r.objectJoin.map (·.2)).contains ·)
          && (r.objectJoin.map (·.2)).all ((refsOfRule parent true).contains ·)))
 
-/-- `_remove_self_joins_no_condition` (as repaired: see `subjRefsAreJoinCols`; the code as found before the repair is
-    `Model.eliminateSelfJoinG ElimShape.found`, Model/Join.lean) -/
+/-- `_remove_self_joins_no_condition` (as repaired: see `subjRefsAreJoinCols`, and the test of the configuration section
+    `source_name` added by the repair of C07_F5; the code as found before the repairs is `Model.eliminateSelfJoinG ElimShape.found`,
+    after the first repair only `Model.eliminateSelfJoinG ElimShape.repaired`, Model/Join.lean) -/
 def eliminateSelfJoin (rules : List Rule) (r : Rule) : Rule :=
   if r.objectMapType = .parentTM then
     match rules.find? (fun p => p.tmId = r.objectMapValue) with
     | some parent =>
-      if r.logicalSourceValue = parent.logicalSourceValue && r.iterator = parent.iterator
+      if r.sourceName = parent.sourceName && r.logicalSourceValue = parent.logicalSourceValue && r.iterator = parent.iterator
           && r.objectJoin.all (fun cp => cp.1 = cp.2) && subjRefsAreJoinCols r parent then
         { r with objectMapType := parent.subjectMapType, objectMapValue := parent.subjectMapValue,
                  objectTermtype := parent.subjectTermtype, objectJoin := [] }
